@@ -255,3 +255,55 @@ UNITS += [
          assumptions=["NormalDistribution returns any finite value <= 4e9", "direct (small-lambda) branch excluded by precondition: its loop terminates only with probability one"],
          note="PoissonDistribution::operator() above the direct-method threshold: the result is the normal deviate rounded to the nearest count, with 0 for deviates below -1/2; the double -> unsigned conversion never sees a negative value"),
 ]
+
+
+# ---------------------------------------------------------------------------
+# NormalDistribution assignment: a cached second Box-Muller deviate is owned by exactly one sampler
+# ---------------------------------------------------------------------------
+NOR = "src/celeritas/random/distribution/NormalDistribution.hh"
+NOR_MODEL = """
+typedef struct { real_type mean_, stddev_, spare_; bool has_spare_; } NormalDistribution;
+#define SAME(a, b) ((a) == (b) || (__CPROVER_isnand(a) && __CPROVER_isnand(b)))
+"""
+NOR_RULES = [
+    Rule(r"\bother\.", "other->", "*", note="reference parameter -> pointer"),
+    Rule(r"(?<![\w.>])(mean_|stddev_|spare_|has_spare_)\b", r"self->\1", "*", note="data members"),
+    Rule(r"return \*this;", "return;", "*", note="returns *this (chaining not modelled)"),
+]
+
+
+def build_normal_assign(kind):
+    def build(ctx):
+        loc = (r"^NormalDistribution<RealType>::operator=\(NormalDistribution const& other\)" if kind == "copy" else r"^NormalDistribution<RealType>::operator=\(NormalDistribution&& other\)")
+        pc = ctx.func(NOR, loc, NOR_RULES, name="NormalDistribution::operator=(%s)" % ("const&" if kind == "copy" else "&&"))
+        if kind == "copy":
+            sig = """
+void NOR_assign(NormalDistribution* self, NormalDistribution const* other)
+__CPROVER_requires(__CPROVER_rw_ok(self, sizeof(*self)) && __CPROVER_r_ok(other, sizeof(*other)) && self != other && (self->has_spare_ == 0 || self->has_spare_ == 1))
+__CPROVER_assigns(self->mean_, self->stddev_, self->spare_, self->has_spare_)
+/* copy assignment changes the distribution only: the source keeps its cached deviate (it is const), so the target must NOT acquire it -- otherwise both samplers
+   would later return the same 'random' number without consuming any draw */
+__CPROVER_ensures(SAME(self->mean_, other->mean_) && SAME(self->stddev_, other->stddev_))
+__CPROVER_ensures(self->has_spare_ == __CPROVER_old(self->has_spare_) && (self->has_spare_ ==> SAME(self->spare_, __CPROVER_old(self->spare_))))
+"""
+            call = "NormalDistribution a, b; unsigned r; a.has_spare_ = (r != 0); NOR_assign(&a, &b);"
+        else:
+            sig = """
+void NOR_assign(NormalDistribution* self, NormalDistribution* other)
+__CPROVER_requires(__CPROVER_rw_ok(self, sizeof(*self)) && __CPROVER_rw_ok(other, sizeof(*other)) && self != other && (self->has_spare_ == 0 || self->has_spare_ == 1) && (other->has_spare_ == 0 || other->has_spare_ == 1))
+__CPROVER_assigns(self->mean_, self->stddev_, self->spare_, self->has_spare_, other->has_spare_)
+__CPROVER_ensures(SAME(self->mean_, other->mean_) && SAME(self->stddev_, other->stddev_))
+/* move assignment may TAKE the source's cached deviate (only if the target has none), and then the source no longer has it: a deviate is never owned twice and never lost */
+__CPROVER_ensures((!__CPROVER_old(self->has_spare_) && __CPROVER_old(other->has_spare_)) ? (self->has_spare_ && !other->has_spare_ && SAME(self->spare_, other->spare_))
+                                                                                         : (self->has_spare_ == __CPROVER_old(self->has_spare_) && other->has_spare_ == __CPROVER_old(other->has_spare_) && (self->has_spare_ ==> SAME(self->spare_, __CPROVER_old(self->spare_)))))
+"""
+            call = "NormalDistribution a, b; unsigned r1, r2; a.has_spare_ = (r1 != 0); b.has_spare_ = (r2 != 0); NOR_assign(&a, &b);"
+        return (HDR + NOR_MODEL + sig + "{" + pc.body + "}\nvoid h_nor(void)\n{\n    " + call + "\n    VERIF_CANARY();\n}\n")
+    return build
+
+
+UNITS += [
+    Unit("c15_normal_assign_%s" % k, build_normal_assign(k), "h_nor", enforce="NOR_assign", timeout=120, backend=["sat", "cvc5"], must_have=[r"NOR_assign.postcondition"], checks=["--bounds-check", "--pointer-check"],
+         note="NormalDistribution::operator=(%s): %s" % ("const&" if k == "copy" else "&&", "changes mean/stddev only, never acquires the source's cached deviate" if k == "copy" else "takes the source's cached deviate only when the target has none, and then the source gives it up"))
+    for k in ("copy", "move")
+]
